@@ -21,7 +21,7 @@ func checkStress33(sc scenarioT, r *evid.Rec) []evid.Disc {
 		r.NotAsserted()
 		return nil
 	}
-	cr, err := runChild(sc, stallWindowC33, childLimit)
+	cr, err := runChild(sc, stallWindowC33, childLimit, nil)
 	if err != nil {
 		r.Inconclusive("stress child process could not be started: " + err.Error())
 		r.NotAsserted()
